@@ -100,7 +100,7 @@ def check_case(ctx, case):
 
 
 def run(ctx):
-    for k in range(ctx.n(22, 200)):
+    for k in range(ctx.n(40, 400)):
         check_case(ctx, krig.gen_case(ctx.rng, nobs=(10, 36)))
     ctx.lean.flush()
 
